@@ -58,6 +58,11 @@ def serialise(t, host, funcs_by_name, out=None, redundant=None):
 
     if k == "num":
         out.append(number_node(t[1], t[2]))
+    elif k == "negnum":  # a literal stored with its sign (Numbers stores negative array elements this way, without a negation node)
+        node = number_node(t[1], t[2])
+        node["AST_number_node_number"] = -node["AST_number_node_number"]
+        node["AST_number_node_decimal_high"] |= 1 << 63
+        out.append(node)
     elif k == "str":
         out.append({"AST_node_type": "STRING_NODE", "AST_string_node_string": t[1]})
     elif k == "bool":
@@ -132,6 +137,8 @@ def strip_parens(t):
         return ("func", "DATE", [("num", Decimal(t[1])), ("num", Decimal(t[2])), ("num", Decimal(t[3]))])
     if k == "num":
         return ("num", Decimal(t[2]))
+    if k == "negnum":  # printed with a minus sign, which reads back as a negation of the magnitude
+        return ("neg", ("num", Decimal(t[2])))
     return t
 
 
@@ -347,7 +354,8 @@ def trees(funcs, rows, cols, max_depth=5, wide_numbers=False):
     refs = st.tuples(st.integers(0, rows - 1), st.integers(0, cols - 1), st.booleans(), st.booleans()).map(lambda t: ("ref", *t))
     dates = st.tuples(st.integers(1990, 2050), st.integers(1, 12), st.integers(1, 28)).map(lambda t: ("date", *t))
     leaves = st.one_of(numbers(wide_numbers), numbers(wide_numbers), strings.map(lambda s: ("str", s)), st.booleans().map(lambda b: ("bool", b)), refs, refs, dates)
-    array_elems = st.one_of(numbers(), strings.map(lambda s: ("str", s)), st.booleans().map(lambda b: ("bool", b)), numbers().map(lambda n: ("neg", n)))
+    array_elems = st.one_of(numbers(), strings.map(lambda s: ("str", s)), st.booleans().map(lambda b: ("bool", b)), numbers().map(lambda n: ("neg", n)),
+                              numbers().filter(lambda n: Decimal(n[2]) != 0).map(lambda n: ("negnum", n[1], n[2])))
 
     @st.composite
     def arrays(draw):
@@ -395,6 +403,8 @@ def features(t, acc=None):
             features(a, acc)
     elif k == "array":
         acc.add("array2d" if len(t[1]) > 1 else "array1d")
+        if any(e[0] == "negnum" for r in t[1] for e in r):
+            acc.add("signed_literal")
     elif k == "str":
         acc.add("string")
         if '"' in t[1]:
